@@ -7,6 +7,7 @@ emitting one element per step or in bursts.  Per direction, inside Coq: the comp
 dispatch = model/Pipeline.v `receive` of the chunks it read, and stream by stream = `expected_rx` of the frames the real
 sender queued.  Oracle (the property): every non-empty payload handed to the library is delivered exactly once, byte for
 byte (data and metadata), in order within its stream, to the handler / subscriber / awaitable of its own interaction."""
+from harness import internals
 import random
 
 from harness import frames as FR, net as NET
@@ -228,14 +229,14 @@ class Run:
                         net.t[side].permit(rng.choice([1, 2, 5]))
                     net.loop.settle()
                 net.flush(rng)
-                if net.lease is not None and len(getattr(net.ep['client']._request_queue, '_queue', net.ep['client']._request_queue)):
+                if net.lease is not None and len(internals.queue_items(internals.request_queue(net.ep['client']))):
                     self.grant(rng.choice([1, 2, 1000]))
                     continue
                 moved = False
                 for it in [i for i in self.inter if not i['done']]:
                     moved = self.progress(it, force=True) or moved
                 busy = moved or any(net.t[s].pending() for s in ('client', 'server')) or \
-                    any(not net.ep[s]._send_queue.empty() for s in ('client', 'server'))
+                    any(not internals.send_queue(net.ep[s]).empty() for s in ('client', 'server'))
                 idle = 0 if busy else idle + 1
                 if idle >= 3:
                     break
